@@ -31,7 +31,7 @@ def check(an, rep, tier):
         'uniqueness in distribution, goodness of fit.')
     rep.assumptions = pre('PRE-TT', 'PRE-D', 'PRE-DOC')
     rep.trusted = ['NumPy model', 'orthogonality axioms for qr / rq']
-    ds = (2, 3) if tier == 'quick' else (2, 3, 4)
+    ds = (2, 3) if tier == 'quick' else (2, 3, 4, 5)
     wh = {'sample.sample', 'sample.sample_square', 'sample.sample_lhs',
           'sample.sample_rand', 'sample.sample_rand_poi', 'sample.sample_tt',
           'sample.sample_tt.one_mode', 'sample._sample_core_first',
@@ -102,23 +102,6 @@ def check(an, rep, tier):
                     line=call.lineno, file=mod.path)
     if not found:
         rep.error('sample.sample_lhs: remainder draw not found')
-    # --- O-pivot for sample_square
-    fn = prog.func('sample.sample_square')
-    mod = fn.module
-    piv = None
-    zname = None
-    for node in ast.walk(fn.node):
-        if isinstance(node, ast.Assign) and isinstance(node.value, ast.Call) \
-                and (prog.dotted(node.value.func) or '').endswith(
-                    'orthogonalize'):
-            c = node.value
-            piv = c.args[1] if len(c.args) > 1 else None
-            for k in c.keywords:
-                if k.arg == 'k':
-                    piv = k.value
-            t = node.targets[0]
-            zname = t.elts[0].id if isinstance(t, ast.Tuple) else \
-                getattr(t, 'id', None)
     # --- P-unique: with unique=True every returned row set is a row subset of
     # an np.unique(.., axis=0) result (distinct rows); rows stacked from
     # several draws without a final de-duplication may repeat
@@ -157,37 +140,50 @@ def check(an, rep, tier):
                     'the tensor and its squares over- / underflow for tensors '
                     'of representable norm' % st.facts.get('lg'),
                     line=getattr(st.node, 'lineno', None), file=mod.path)
-    if piv is None or zname is None:
-        rep.error('sample.sample_square: orthogonalize call not found')
-    else:
-        first = None
-        loop_ok = False
-        for node in ast.walk(fn.node):
-            if isinstance(node, ast.Subscript) and \
-                    isinstance(node.value, ast.Name) and \
-                    node.value.id == zname and \
-                    isinstance(node.slice, ast.Constant) and first is None:
-                first = node.slice.value
-            if isinstance(node, ast.For):
-                for x in ast.walk(node.iter):
-                    if isinstance(x, ast.Subscript) and \
-                            isinstance(x.value, ast.Name) and \
-                            x.value.id == zname and \
-                            isinstance(x.slice, ast.Slice) and \
-                            isinstance(x.slice.lower, ast.Constant) and \
-                            x.slice.lower.value == 1 and \
-                            x.slice.upper is None:
-                        loop_ok = True
-        ok = isinstance(piv, ast.Constant) and piv.value == 0 and \
-            first == 0 and loop_ok
-        rep.add('O-pivot', 'sample.sample_square',
-                'orthogonalize(Y, %s) / first core %s[%s] / sweep over %s[1:]'
-                % (model.norm_src(mod, piv), zname, first, zname),
-                'ok' if ok else 'violation',
-                '' if ok else 'the pivot of the orthogonalisation, the core '
-                'the first marginal is read from and the start of the sweep '
-                'must coincide (core 0, sweeping right)',
-                line=fn.node.lineno, file=mod.path)
+    # --- O-pivot for sample_square, on the typestates of the abstract run:
+    # the matrix the first marginal is computed from is the pivot of the
+    # orthogonalisation (it carries the weights: NOT an orthonormal factor)
+    # and every core contracted in the sweep has orthonormal rows.
+    fn = prog.func('sample.sample_square')
+    mod = fn.module
+    for r in runs:
+        if r.qualname != 'sample.sample_square':
+            continue
+        firsts = [a_.get('Q') for (q_, a_, _) in r.I.call_log
+                  if q_ == 'sample._sample_core_first']
+        for Q_ in firsts:
+            if Q_ is None or Q_.k != 'arr':
+                continue
+            bad = Q_.orth in ('cols', 'rows', 'cols3', 'rows3')
+            rep.add('O-pivot', 'sample.sample_square', 'first marginal is '
+                    'read from the pivot core (%s)' % r.tag(),
+                    'violation' if bad else 'ok',
+                    '' if not bad else 'the matrix of the first marginal has '
+                    'typestate %s: it is an orthonormal factor, not the pivot '
+                    'of the orthogonalisation -- the pivot, the core the '
+                    'first marginal is read from and the start of the sweep '
+                    'must coincide' % Q_.orth,
+                    line=fn.node.lineno, file=mod.path)
+        for s_ in r.I.sites:
+            if s_.rule != 'O-contract' or \
+                    not s_.where.startswith('sample.sample_square'):
+                continue
+            cores = [o for o, nd in zip(s_.facts['orth'], s_.facts['ndim'])
+                     if nd == 3]
+            if len(cores) != 1:
+                continue
+            o = cores[0]
+            st_ = 'ok' if o == 'rows3' else (
+                'violation' if o in ('cols3', 'weighted3', 'half3') else
+                'unknown')
+            rep.add('O-pivot', 'sample.sample_square', 'core contracted in '
+                    'the sweep has orthonormal rows (%s, line %d)'
+                    % (r.tag(), s_.node.lineno), st_,
+                    '' if st_ == 'ok' else 'the swept core has typestate %s: '
+                    'the conditional marginals are sums of squares only when '
+                    'the cores still to come have orthonormal rows (sweep '
+                    'away from the pivot)' % o,
+                    line=s_.node.lineno, file=mod.path)
     # cores right of the pivot are right-orthogonal after orthogonalize(Y, 0)
     for d in ds:
         run = an.run('transformation.orthogonalize', 1, d)   # k = 0 variant
@@ -212,7 +208,7 @@ def check(an, rep, tier):
     rep.floor('S-ret', 8, 'sampler results')
     rep.floor('S-einsum', 2, 'marginal / conditional contractions')
     rep.floor('R-draw-local', 6, 'draw sites in sample.py')
-    rep.floor('O-pivot', 3, 'pivot rules')
+    rep.floor('O-pivot', 8, 'pivot rules')
     rep.floor('P-unique', 1, 'distinct rows with unique=True')
     rep.floor('U-square', 1, 'normalised pivot core before squaring')
     rep.floor('P-lhs', 1, 'LHS remainder draw')
